@@ -203,6 +203,16 @@ TrTraverse(name, up) ==
             /\ Clause("C09." \o name \o ".ranklen", Len(e.rank) = Len(e.res))
        ELSE OutOfDomain
 
+(* upset_generalization is documented as experimental and named by no property: observation only *)
+TrUpsetGen ==
+    /\ IsEv("upset_generalization")
+    /\ IF K.ok /\ \A i \in 1..Len(e.seeds) : ToSet(e.seeds[i]) \in DOMAIN Lz.pos
+       THEN /\ UpsetGeneralization(SetOfSets(e.seeds))
+            /\ Clause("obs.C09.upset_generalization.set", SetOfSets(e.res) = SetOfSets(last'.res))
+            /\ Clause("obs.C09.upset_generalization.norepeat", NoDup(e.res))
+            /\ Clause("obs.C09.upset_generalization.rankorder", Inc(e.rank))
+       ELSE OutOfDomain
+
 (* ------------------------------- C10 --------------------------------- *)
 (* Clauses named "obs.*" state more than the property text does (the format of str(), which entries a printed *)
 (* relations table lists, exception classes the statement leaves open): they are evaluated and reported as    *)
@@ -462,6 +472,7 @@ TraceNext ==
     \/ TrNew \/ TrIntension \/ TrExtension \/ TrCtxGetItem \/ TrLatGetItem
     \/ TrLatList \/ TrGen \/ TrLatLinks \/ TrNeighbors \/ TrLatOrder
     \/ TrJoinMeet("join") \/ TrJoinMeet("meet") \/ TrPred \/ TrPredIntents
+    \/ TrUpsetGen
     \/ TrTraverse("upset", TRUE) \/ TrTraverse("upset_union", TRUE)
     \/ TrTraverse("downset", FALSE) \/ TrTraverse("downset_union", FALSE)
     \/ TrLatLabels \/ TrRelations \/ TrRelationsStr \/ TrAttributes \/ TrAttributesBig \/ TrMinimal
